@@ -198,6 +198,55 @@ CHECKS['C14'] = dict(
          'Assumes lines of at most 4300 bytes (CPython int() digit limit).',
     thorough=True)
 
+CHECKS['C02'] = dict(
+    category='proof',
+    text='Every public writer method, in each of the nine reachable states, '
+         'is verified to append exactly RenderHeader(target id, options) + '
+         'the prepared block with length = len(block), RenderHeader being '
+         'the specification serializer of a header (sorted keys, ", ", None '
+         'dropped); _prepare_content is verified to end the block with the '
+         'BOM-free newline of the effective encoding and to indent every '
+         'line after encoding; the canonical json.dumps arguments are a '
+         'syntactic obligation. By the object invariant this covers every '
+         'accepted call sequence. Byte-for-byte comparison with an '
+         'independent serializer is the labelled bounded stand-in.',
+    design_ref='5/C02',
+    technique='contract-based deductive verification: functional '
+              'post-conditions (output == out0 + spec serializer) on the '
+              'real ASTs, z3/cvc5',
+    thorough=True)
+CHECKS['C01'] = dict(
+    category='other',
+    text='The leaves of the round trip are proved for all inputs: what the '
+         'writer puts into a content section (Prepare) and what the reader '
+         'makes of exactly length bytes (Recover), framing and encoding '
+         'scope in the main loop. The end-to-end statement (records read == '
+         'sections written, any call sequence) is NOT machine-checked as one '
+         'invariant; it is covered by a bounded round-trip generator with '
+         'records known from the calls (labelled bounded).',
+    design_ref='5/C01',
+    technique='contract-based deductive verification of the leaf functions '
+              '+ bounded end-to-end round trip',
+    note='Level "other": leaves proved, root composition bounded only.',
+    thorough=True)
+CHECKS['C03'] = dict(
+    category='other',
+    text='Every step of the reader (_read_header, iter_sections, '
+         '_read_content, _process_content, DiffXParseError.__init__) is '
+         'under contract and verified for all inputs, including which '
+         'options are consulted, the option fold with integer conversion, '
+         'the line counter and the line reported by parse errors. The '
+         'whole-file reading is their composition, exercised on files from '
+         'an independent spec-derived generator and on single-defect '
+         'mutations with known error lines (labelled bounded).',
+    design_ref='5/C03',
+    technique='contract-based deductive verification of the per-step '
+              'contracts + bounded foreign-file generator and defect '
+              'catalogue',
+    note='Level "other": step contracts proved, whole-file composition '
+         'bounded.',
+    thorough=True)
+
 NOT_YET = 'check not built yet (work in progress; see DESIGN.md section 5)'
 NA = {}
 
